@@ -16,7 +16,7 @@ import itertools
 import re
 
 from lint import facts, ir, effects, anchors, cmpdomain, loops, cfg as cfgmod
-from lint.cmpdomain import Obj, Evaluator
+from lint.cmpdomain import Obj, Evaluator, NotPure
 from lint.common import AnalysisBroken
 from gen import static_units
 from rules.c01 import who_may_call, tk_short
@@ -146,9 +146,17 @@ def status_rules(run, F, E):
                         bad = {'lhs': a, 'rhs': b, 'returns': val}
                 ok = bad is None
             else:
-                # lhs = TaskStatus{max}; return lhs
-                asg = [e for e, g in E.call_sites(f) if e.get('op') == '=' and ir.is_expr(e.get('obj')) and ir.pp(ir.strip(e['obj'])) == 'lhs']
-                ok = shape and len(asg) == 1 and 'result' in ir.pp(ir.strip(asg[0]['args'][0]))
+                # lhs becomes the maximum and is what is returned (evaluated on all 9 pairs, whatever the spelling)
+                for a, b in itertools.product([0, 1, 2], repeat=2):
+                    ev = Evaluator(F)
+                    L, R = Obj(result=a), Obj(result=b)
+                    try:
+                        got = ev.call(f, None, [L, R])
+                    except NotPure as ex:
+                        raise AnalysisBroken('TaskStatus operator|= is outside the evaluable fragment: %s' % ex)
+                    if (L.get('result') != max(a, b) or got is not L or R.get('result') != b) and bad is None:
+                        bad = {'lhs': a, 'rhs': b, 'lhs afterwards': L.get('result'), 'returns lhs': got is L}
+                ok = bad is None
             run.ob('C08.d', 'TaskStatus %s is the maximum of the two results' % f.qn.split('::')[-1], ok, where=f.pat, detail=bad,
                    key='TaskStatus %s is not a maximum' % f.qn.split('::')[-1])
     for fn in F.find('C_', 'deepUpdatePlans'):
